@@ -94,30 +94,32 @@ pub fn assemble(src: &str) -> Result<Asm, String> {
     }
 }
 
+pub fn ok_answer(ctx: PreprocessorContext, out: PreprocessorOutput) -> String {
+        let c: Vec<String> = out.code.iter().map(|l| enc(l)).collect();
+        let d: Vec<String> = out.data.iter().map(|l| enc(l)).collect();
+        let mut l: Vec<String> = ctx
+            .label_map
+            .iter()
+            .map(|(k, v)| format!("{}:{}:{}:{}", k, match v.get_type() { LabelType::DATA => "D", LabelType::CODE => "C" }, v.map, v.source_position))
+            .collect();
+        l.sort();
+        let mut f: Vec<String> = ctx.fn_map.iter().map(|(k, v)| format!("{}:{}", k, v)).collect();
+        f.sort();
+        let mut uu: Vec<(usize, String)> = ctx.undefined_labels.iter().cloned().collect();
+        uu.sort();
+        let u: Vec<String> = uu.iter().map(|(p, n)| format!("{}:{}", p, n)).collect();
+        let sm = ctx.mapper.get_source_map();
+        let mut m: Vec<String> = Vec::new();
+        for i in 0..sm.len() {
+            m.push(sm.get(&i).map(|x| x.to_string()).unwrap_or("?".into()));
+        }
+        format!("OK | c={} | d={} | l={} | f={} | u={} | m={}", join(&c), join(&d), join(&l), join(&f), join(&u), if m.is_empty() { "-".to_string() } else { m.join(",") })
+}
+
 pub fn asm_answer(src: &str) -> String {
     match assemble(src) {
         Err(a) => a,
-        Ok(Asm { ctx, out }) => {
-            let c: Vec<String> = out.code.iter().map(|l| enc(l)).collect();
-            let d: Vec<String> = out.data.iter().map(|l| enc(l)).collect();
-            let mut l: Vec<String> = ctx
-                .label_map
-                .iter()
-                .map(|(k, v)| format!("{}:{}:{}:{}", k, match v.get_type() { LabelType::DATA => "D", LabelType::CODE => "C" }, v.map, v.source_position))
-                .collect();
-            l.sort();
-            let mut f: Vec<String> = ctx.fn_map.iter().map(|(k, v)| format!("{}:{}", k, v)).collect();
-            f.sort();
-            let mut uu: Vec<(usize, String)> = ctx.undefined_labels.iter().cloned().collect();
-            uu.sort();
-            let u: Vec<String> = uu.iter().map(|(p, n)| format!("{}:{}", p, n)).collect();
-            let sm = ctx.mapper.get_source_map();
-            let mut m: Vec<String> = Vec::new();
-            for i in 0..sm.len() {
-                m.push(sm.get(&i).map(|x| x.to_string()).unwrap_or("?".into()));
-            }
-            format!("OK | c={} | d={} | l={} | f={} | u={} | m={}", join(&c), join(&d), join(&l), join(&f), join(&u), if m.is_empty() { "-".to_string() } else { m.join(",") })
-        }
+        Ok(Asm { ctx, out }) => ok_answer(ctx, out),
     }
 }
 
@@ -134,6 +136,30 @@ pub fn answer(req: &str) -> String {
             Some(src) => asm_answer(&src),
             None => "BADREQ".into(),
         },
+        "asmre" => {
+            // the second source on a parser and a context that have already processed the first one
+            // (cleared in between, as the library's users do), and on fresh objects
+            let mut it = rest.trim().splitn(2, ' ');
+            match (it.next().and_then(dec), it.next().and_then(|x| dec(x.trim()))) {
+                (Some(a), Some(b)) => {
+                    let reused = catch_unwind(AssertUnwindSafe(|| {
+                        let mut ctx = PreprocessorContext::default();
+                        let mut out = PreprocessorOutput::default();
+                        let p = Preprocessor::new();
+                        let _ = p.parse(&mut ctx, &mut out, &a);
+                        ctx.clear();
+                        out.clear();
+                        match p.parse(&mut ctx, &mut out, &b) {
+                            Ok(_) => ok_answer(ctx, out),
+                            Err(e) => err_string(&e),
+                        }
+                    }))
+                    .unwrap_or_else(|_| "PANIC".to_string());
+                    format!("{} || {}", reused, asm_answer(&b))
+                }
+                _ => "BADREQ".into(),
+            }
+        }
         "asmx" => {
             let mut it = rest.trim().splitn(2, ' ');
             let a = it.next().and_then(dec);
